@@ -64,65 +64,104 @@ GeF(p, f) == IF f.j = H THEN Leq(f.k, p)
 RangeTrue(f, last) == {k \in PresentKeys(kv) : GeF(k, f) /\ Leq(k, last)}
 MinKey(S) == CHOOSE k \in S : \A x \in S : Leq(k, x)
 Pairs(S) == {[k |-> k, v |-> kv[k]] : k \in S}
+\* a mutation: [m, claim, cls, om]; cls "accept" | "reject" | "omit" (om = the omitted true keys)
 RangeMutations(f, last) ==
   LET T == RangeTrue(f, last) IN
-  {[m |-> "none", claim |-> Pairs(T), expect |-> "accept"]}
+  {[m |-> "none", claim |-> Pairs(T), cls |-> "accept", om |-> {}]}
   \cup (IF Cardinality(T) >= 2
-        THEN {[m |-> "omit-left", claim |-> Pairs(T \ {MinKey(T)}), expect |-> IF LeftEdgeChecked THEN "reject" ELSE "left-edge"]}
+        THEN {[m |-> "omit-left", claim |-> Pairs(T \ {MinKey(T)}), cls |-> "omit", om |-> {MinKey(T)}]}
         ELSE {})
   \cup (IF Cardinality(T) >= 3
-        THEN {[m |-> "omit-left-2", claim |-> Pairs(T \ {MinKey(T), MinKey(T \ {MinKey(T)})}),
-               expect |-> IF LeftEdgeChecked THEN "reject" ELSE "left-edge"]}
+        THEN {[m |-> "omit-left-2", claim |-> Pairs(T \ {MinKey(T), MinKey(T \ {MinKey(T)})}), cls |-> "omit",
+               om |-> {MinKey(T), MinKey(T \ {MinKey(T)})}]}
         ELSE {})
-  \cup {[m |-> "omit-mid", claim |-> Pairs(T \ {x}), expect |-> "reject"] :
+  \cup {[m |-> "omit-mid", claim |-> Pairs(T \ {x}), cls |-> "omit", om |-> {x}] :
           x \in {y \in T : y # last /\ y # MinKey(T)}}
-  \cup {[m |-> "alter-value", claim |-> (Pairs(T \ {x}) \cup {[k |-> x, v |-> (kv[x] % MaxV) + 1]}), expect |-> "reject"] :
+  \* every in-range key below one prefix (one subtree / one internal edge of the real trie) is withheld
+  \cup {[m |-> "omit-subtree", claim |-> Pairs(T \ Under(T, q)), cls |-> "omit", om |-> Under(T, q)] :
+          q \in {pq \in {Take(x, n) : x \in T, n \in 1..(H - 1)} : ~IsPrefixOf(pq, last)}}
+  \cup {[m |-> "alter-value", claim |-> (Pairs(T \ {x}) \cup {[k |-> x, v |-> (kv[x] % MaxV) + 1]}), cls |-> "reject", om |-> {}] :
           x \in {y \in T : MaxV > 1}}
-  \cup {[m |-> "add-absent", claim |-> (Pairs(T) \cup {[k |-> x, v |-> 1]}), expect |-> "reject"] :
+  \cup {[m |-> "add-absent", claim |-> (Pairs(T) \cup {[k |-> x, v |-> 1]}), cls |-> "reject", om |-> {}] :
           x \in {y \in Keys : kv[y] = 0 /\ GeF(y, f) /\ Less(y, last) /\ (f.j = H => y # f.k)}}
-  \cup {[m |-> "claim-empty", claim |-> {}, expect |-> "reject"]}
+  \cup {[m |-> "claim-empty", claim |-> {}, cls |-> "reject", om |-> {}]}
+
+(* The verdict the contract demands.  An omission is a LEFT-EDGE omission when every withheld key is
+   smaller than every claimed key.  With LeftEdgeChecked = FALSE (the code as it is, DESIGN H10) the
+   verdict on left-edge omissions is left open - for the legacy verifier always, for trie2 ONLY when the
+   withheld keys include the existing `first` key itself (the boundary leaf is unset and never
+   re-inserted) or when the trie has two sibling subtrees with the same commitment (Aliased below);
+   every other omission must be rejected by trie2, also with an absent `first`. *)
+\* two sibling subtrees with the same commitment (same shape, same values): trie2's proofToPath resolves
+\* both from the hash-keyed proof set to ONE node object, and unsetInternal detects the fork point of the two
+\* boundary paths by pointer inequality of the children, so it walks past the fork (the code as it is)
+Aliased == \E q \in AllPaths : Len(q) < H /\ SubRoot(kv, Append(q, 0)) # Empty
+                                /\ SubRoot(kv, Append(q, 0)) = SubRoot(kv, Append(q, 1))
+Expect(impl, f, last, mu) ==
+  IF mu.cls # "omit" THEN mu.cls
+  ELSE LET rest == RangeTrue(f, last) \ mu.om IN
+       IF ~(\A x \in mu.om, y \in rest : Less(x, y)) THEN "reject"
+       ELSE IF LeftEdgeChecked THEN "reject"
+       ELSE IF impl = "legacy" \/ (f.j = H /\ f.k \in mu.om) THEN "left-edge"
+       ELSE IF Aliased THEN "left-edge-aliased"
+       ELSE "reject"
 
 PresProj == {[k |-> x, v |-> kv[x]] : x \in PresentKeys(kv)}
 RQuery ==
-  \E impl \in R(Impls), f \in R(Firsts(Keys \cup Near)) :
+  \E impl \in R(Impls), cached \in R(BOOLEAN), f \in R(Firsts(Keys \cup Near)) :
     LET later == {k \in PresentKeys(kv) : GeF(k, f)} IN
     IF later = {}
     THEN \* nothing at or after `first`: the empty claim is the true one
-      /\ act' = [name |-> "Range", impl |-> impl, first |-> f, m |-> "none-empty", claim |-> {}, whole |-> FALSE]
+      /\ act' = [name |-> "Range", impl |-> impl, cached |-> cached, first |-> f, m |-> "none-empty", claim |-> {}, whole |-> FALSE]
       /\ res' = Err /\ UNCHANGED kv
       /\ hist' = Append(hist, [a |-> act', expect |-> "accept", more |-> FALSE, pres |-> PresProj])
     ELSE \E last \in R(later) : \E mu \in R(RangeMutations(f, last)) :
-      /\ act' = [name |-> "Range", impl |-> impl, first |-> f, m |-> mu.m, claim |-> mu.claim, whole |-> FALSE]
+      /\ act' = [name |-> "Range", impl |-> impl, cached |-> cached, first |-> f, m |-> mu.m, claim |-> mu.claim, whole |-> FALSE]
       /\ res' = Err /\ UNCHANGED kv
-      /\ hist' = Append(hist, [a |-> act', expect |-> mu.expect, more |-> (\E k \in PresentKeys(kv) : Less(last, k)),
+      /\ hist' = Append(hist, [a |-> act', expect |-> Expect(impl, f, last, mu), more |-> (\E k \in PresentKeys(kv) : Less(last, k)),
                                pres |-> PresProj])
+
+\* a GAPPED answer, directed: the boundary runs into the subtree below prefix q (it extends q and is absent or
+\* leaves the trie inside an edge there), and every in-range key of that subtree is withheld
+GQuery ==
+  \E impl \in R(Impls), cached \in R(BOOLEAN) :
+    \E q \in R({Take(x, n) : x \in PresentKeys(kv), n \in 1..(H - 1)}) :
+      \E f \in R({g \in Firsts(Under(Keys, q)) : g.j >= Len(q) /\ (g.j = H => kv[g.k] = 0)}) :
+        \E last \in R({k \in PresentKeys(kv) : GeF(k, f) /\ ~IsPrefixOf(q, k)}) :
+          LET T == RangeTrue(f, last)
+              mu == [m |-> "omit-subtree", claim |-> Pairs(T \ Under(T, q)), cls |-> "omit", om |-> Under(T, q)] IN
+          /\ mu.om # {}
+          /\ act' = [name |-> "Range", impl |-> impl, cached |-> cached, first |-> f, m |-> mu.m, claim |-> mu.claim, whole |-> FALSE]
+          /\ res' = Err /\ UNCHANGED kv
+          /\ hist' = Append(hist, [a |-> act', expect |-> Expect(impl, f, last, mu), more |-> (\E k \in PresentKeys(kv) : Less(last, k)),
+                                   pres |-> PresProj])
 
 \* the EMPTY claim ("nothing at or after first") for a boundary at every divergence position: true iff no
 \* present key is >= first; a responder that withholds entries must be caught by the has-right-element test
 EQuery ==
-  \E impl \in R(Impls), f \in R(Firsts(Keys \cup Near \cup PresentKeys(kv))) :
+  \E impl \in R(Impls), cached \in R(BOOLEAN), f \in R(Firsts(Keys \cup Near \cup PresentKeys(kv))) :
     LET later == {k \in PresentKeys(kv) : GeF(k, f)} IN
-    /\ act' = [name |-> "Range", impl |-> impl, first |-> f, m |-> IF later = {} THEN "none-empty" ELSE "claim-empty",
+    /\ act' = [name |-> "Range", impl |-> impl, cached |-> cached, first |-> f, m |-> IF later = {} THEN "none-empty" ELSE "claim-empty",
                claim |-> {}, whole |-> FALSE]
     /\ res' = Err /\ UNCHANGED kv
     /\ hist' = Append(hist, [a |-> act', expect |-> IF later = {} THEN "accept" ELSE "reject", more |-> FALSE, pres |-> PresProj])
 \* ... and the same with a boundary inside an edge, on its left side: the shape that needs the has-right test
 EQueryLeft ==
-  \E impl \in R(Impls), k \in R(PresentKeys(kv) \cup Near), j \in R(0..(H - 1)) :
+  \E impl \in R(Impls), cached \in R(BOOLEAN), k \in R(PresentKeys(kv) \cup Near), j \in R(0..(H - 1)) :
     LET f == [k |-> k, j |-> j, dir |-> "below"]
         later == {x \in PresentKeys(kv) : GeF(x, f)} IN
-    /\ act' = [name |-> "Range", impl |-> impl, first |-> f, m |-> IF later = {} THEN "none-empty" ELSE "claim-empty",
+    /\ act' = [name |-> "Range", impl |-> impl, cached |-> cached, first |-> f, m |-> IF later = {} THEN "none-empty" ELSE "claim-empty",
                claim |-> {}, whole |-> FALSE]
     /\ res' = Err /\ UNCHANGED kv
     /\ hist' = Append(hist, [a |-> act', expect |-> IF later = {} THEN "accept" ELSE "reject", more |-> FALSE, pres |-> PresProj])
 
 \* the whole trie without any proof (proof = nil): the claim must be the complete content
 WQuery ==
-  \E impl \in R(Impls) :
+  \E impl \in R(Impls), cached \in R(BOOLEAN) :
     LET T == PresentKeys(kv) IN
     \E mu \in R({[m |-> "none", claim |-> Pairs(T), expect |-> "accept"]}
                \cup {[m |-> "omit", claim |-> Pairs(T \ {x}), expect |-> "reject"] : x \in T}) :
-      /\ act' = [name |-> "Range", impl |-> impl, first |-> [k |-> [i \in 1..H |-> 0], j |-> H, dir |-> "exact"], m |-> mu.m, claim |-> mu.claim, whole |-> TRUE]
+      /\ act' = [name |-> "Range", impl |-> impl, cached |-> cached, first |-> [k |-> [i \in 1..H |-> 0], j |-> H, dir |-> "exact"], m |-> mu.m, claim |-> mu.claim, whole |-> TRUE]
       /\ res' = Err /\ UNCHANGED kv
       /\ hist' = Append(hist, [a |-> act', expect |-> mu.expect, more |-> FALSE,
                                pres |-> {[k |-> x, v |-> kv[x]] : x \in PresentKeys(kv)}])
@@ -136,7 +175,7 @@ PutStep ==
 
 \* build first (a few keys), then query
 Step == IF Len(hist) < 5 THEN PutStep
-        ELSE \/ MQuery \/ MQuery \/ MQuery \/ RQuery \/ RQuery \/ EQuery \/ EQueryLeft \/ WQuery \/ PutStep
+        ELSE \/ MQuery \/ MQuery \/ MQuery \/ RQuery \/ RQuery \/ GQuery \/ GQuery \/ EQuery \/ EQueryLeft \/ WQuery \/ PutStep
 
 Emit == /\ PrintT(ToJson(hist))
         /\ kv' = EmptyKV /\ act' = [name |-> "Init"] /\ res' = Err /\ hist' = <<>>
